@@ -6,7 +6,7 @@ COMMON_TRUST = [
     "hand-written Lean model tied to /repo by the differential harness (/verif/harness) on every run; generators, canonicalisers and tools/extract.py are trusted to be honest comparisons",
 ]
 
-HOOK_COMMITS = ["0930f64", "8ed103b"]
+HOOK_COMMITS = ["0930f64", "8ed103b", "b4e0768"]
 
 # properties deliberately not claimed, with the reason (empty: every property is meant to be claimed)
 NOT_CLAIMED = {}
@@ -64,6 +64,22 @@ PROPS = {
         "explanation": "insert_state_neutral + blank/comment corollaries in Lean; driver op `insert` compared with the real counter's per-line classes before and after; predicate: code count and all other classes unchanged",
         "trusted_base": COMMON_TRUST + COUNTER_TRUST,
         "assumptions": ["files without an ignore-file directive (inserting a line shifts the 10-line scan window)"],
+    },
+    "C15": {
+        "modules": ["SlocModel.Props.C15"],
+        "required_theorems": ["retention_bounds", "age_saturates", "snapshot_appends_one", "never_rewrites", "new_entry_kept",
+                              "interval_skip_iff", "force_overrides", "dry_run_read_only", "since_selects", "delta_exact",
+                              "significant_iff", "unit_values", "parse_duration_spec", "parse_duration_rejects",
+                              "duration_overflow_rejected", "restricted_check_never_snapshots", "auto_snapshot_iff",
+                              "c15_auto_snapshot_ignores_content_excluded"],
+        "technique": "Lean 4 theorems over a model of TrendHistory / parse_duration / the snapshot decision (all histories, clocks, configurations) + differential correspondence in-process and on the real binary with a pinned clock",
+        "level_text": "Machine-checked for every history (no monotonicity of timestamps assumed), every clock value and every retention configuration: a recorded snapshot is `retain(history ++ [entry])`, a sublist of the old history plus the new entry; retention bounds the length, removes exactly the entries older than the (saturating) age limit, keeps the newest and, with a pinned clock and max_entries >= 1, the entry just written; skipped iff inside min_interval_secs and not forced; dry-run and restricted checks never write; --since selects the last recorded entry at or before now - D; deltas are exact integer differences; significance iff files changed or |code delta| > min_code_delta; accepted duration strings are digits + a unit of the (regenerated) table with an in-range product. Compared with the TrendHistory API on 40k cases (2M thorough) and with 120 (3000) real CLI steps (snapshot / --force / --dry-run / check with auto-snapshot / check --files / stats) under SLOC_GUARD_VERIF_NOW, recorded totals checked against `stats summary`.",
+        "level_note": "Trusted: Lean kernel + standard axioms; harness; serde_json round trip of history.json; the three clock reads inside one snapshot are pinned to one value by the verif hook (a tick between them is not explored). One sub-claim is false of the pinned code and listed as a known finding (auto-snapshot omits content-excluded files).",
+        "trivial_tag_prefixes": ["cli/stats", "cli/check-no-auto"],
+        "rule": "in-process: histories of 0-5 entries with equal / close / far-apart / backwards timestamps, retention configurations from a lattice (max_entries in {-,0,1,2,3,10}, max_age_days in {-,0,1,2,30} and u64 extremes, min_interval in {-,0,1,60,3600,86400}), clock at / before / after the last entry; duration strings: a 48-string corpus (units, case, whitespace, Kelvin sign, fullwidth and Arabic digits, signs, overflow boundaries) + grammar x mutation; CLI: 12 (300) scratch projects x 10 steps with clock jumps incl. backwards, project edits, every command kind; distinct = distinct request lines",
+        "explanation": "theorems on shouldAdd/applyRetention/snapshot/findAtOrBefore/delta/parseDuration + differential comparison with TrendHistory::{should_add,apply_retention,compute_delta,compute_delta_since}, TrendDelta::is_significant, parse_duration and the history.json written by the real binary",
+        "trusted_base": COMMON_TRUST + ["serde_json (de)serialisation of history.json", "SLOC_GUARD_VERIF_NOW pins SystemTime::now() (hook b4e0768)"],
+        "assumptions": ["one clock value per invocation"],
     },
     "C16": {
         "modules": ["SlocModel.Props.C16"],
